@@ -394,3 +394,271 @@ Proof.
     by exact (filter_split_length _ (fun s => negb (smem s exog)) base).
   lia.
 Qed.
+
+Lemma base_spots_In : forall cols qids q c, In (q, c) (base_spots cols qids) <-> In c cols /\ In q qids.
+Proof.
+  intros. unfold base_spots. rewrite in_flat_map. split.
+  - intros [c' [Hc Hin]]. apply in_map_iff in Hin. destruct Hin as [q' [E Hq]]. inversion E; subst. auto.
+  - intros [Hc Hq]. exists c. split; auto. apply in_map_iff. exists q. auto.
+Qed.
+
+Lemma base_spots_length : forall cols qids, length (base_spots cols qids) = (length cols * length qids)%nat.
+Proof.
+  intros cols qids. unfold base_spots. induction cols; [reflexivity |].
+  cbn [flat_map]. rewrite app_length, map_length.
+  etransitivity; [apply f_equal; exact IHcols | reflexivity].
+Qed.
+
+Lemma base_spots_NoDup : forall cols qids, NoDup cols -> NoDup qids -> NoDup (base_spots cols qids).
+Proof.
+  induction cols as [| c cols IH]; intros qids Nc Nq; simpl. constructor.
+  inversion Nc; subst. apply NoDup_app_disj.
+  - apply FinFun.Injective_map_NoDup; auto. intros x y E. inversion E; auto.
+  - apply IH; auto.
+  - intros [q' c'] H1' H2'. apply in_map_iff in H1'. destruct H1' as [q0 [E _]]. inversion E; subst.
+    fold (base_spots cols qids) in H2'. apply base_spots_In in H2'. tauto.
+Qed.
+
+(* the unknown cells of a frame:  endogenous x columns  minus exogenized  plus endogenized *)
+Theorem wrt_spots_algebra : forall p cols qids,
+  let base := base_spots cols qids in
+  let exog := exogenized_spots p cols in
+  let endog := endogenized_spots p cols in
+  let wrt := wrt_spots (Some p) cols qids in
+  (forall s, In s wrt <-> (In s base /\ ~ In s exog) \/ In s endog)
+  /\ StronglySorted slt wrt /\ NoDup wrt
+  /\ (NoDup cols -> NoDup qids -> incl exog base -> (forall s, In s endog -> ~ In s base) ->
+      forall neq, length qids = neq ->
+      (length wrt = (neq * length cols)%nat <-> length (sort_spots exog) = length (sort_spots endog))).
+Proof.
+  intros. unfold wrt, wrt_spots. fold base exog endog. repeat split.
+  - apply swap_spots_In.
+  - apply swap_spots_In.
+  - apply swap_spots_sorted.
+  - apply sorted_NoDup, swap_spots_sorted.
+  - intros E.
+    assert (L := swap_spots_length base exog endog (base_spots_NoDup _ _ H H0) H1 H2).
+    unfold base in L at 2. rewrite base_spots_length in L. subst neq. lia.
+  - intros E.
+    assert (L := swap_spots_length base exog endog (base_spots_NoDup _ _ H H0) H1 H2).
+    unfold base in L at 2. rewrite base_spots_length in L. subst neq. lia.
+Qed.
+
+(* without a plan the unknown cells are all endogenous cells, column by column *)
+Theorem wrt_spots_no_plan : forall cols qids,
+  wrt_spots None cols qids = base_spots cols qids
+  /\ length (wrt_spots None cols qids) = (length qids * length cols)%nat.
+Proof. intros. split; auto. simpl. rewrite base_spots_length. lia. Qed.
+
+(* ------------------------------------------------------------------ data arrays *)
+
+Section DataLemmas.
+Context {V : Type}.
+Variable dflt : V.
+
+Lemma mapi_from_length : forall A B (f : Z -> A -> B) l i, length (mapi_from f i l) = length l.
+Proof. induction l; intros; simpl; auto. Qed.
+
+Lemma nth_mapi_from : forall A B (f : Z -> A -> B) l i k da db, (k < length l)%nat ->
+  nth k (mapi_from f i l) db = f (i + Z.of_nat k) (nth k l da).
+Proof.
+  induction l; intros i k da db H; simpl in *. lia.
+  destruct k.
+  - f_equal. lia.
+  - rewrite (IHl (i + 1) k da db) by lia. f_equal. lia.
+Qed.
+
+Lemma nth_mapi_from_out : forall A B (f : Z -> A -> B) l i k db, (length l <= k)%nat ->
+  nth k (mapi_from f i l) db = db.
+Proof. intros. apply nth_overflow. rewrite mapi_from_length. auto. Qed.
+
+(* (q, c) addresses a cell of the array *)
+Definition inb (d : list (list V)) (q c : Z) : bool :=
+  (0 <=? q) && (0 <=? c) && (Z.to_nat q <? length d)%nat && (Z.to_nat c <? length (nth (Z.to_nat q) d []))%nat.
+
+Lemma get_out : forall d q c, inb d q c = false -> get dflt d q c = dflt.
+Proof.
+  intros d q c H. unfold get, inb in *.
+  destruct (Z.ltb_spec q 0); simpl; auto. destruct (Z.ltb_spec c 0); simpl; auto.
+  destruct (Z.leb_spec 0 q); [| lia]. destruct (Z.leb_spec 0 c); [| lia]. simpl in H.
+  destruct (Nat.ltb_spec (Z.to_nat q) (length d)); simpl in H.
+  - destruct (Nat.ltb_spec (Z.to_nat c) (length (nth (Z.to_nat q) d []))); [discriminate |].
+    apply nth_overflow. auto.
+  - rewrite (nth_overflow d) by auto. destruct (Z.to_nat c); reflexivity.
+Qed.
+
+Lemma get_mapi2 : forall f d q c,
+  get dflt (mapi2 f d) q c = if inb d q c then f q c (get dflt d q c) else dflt.
+Proof.
+  intros f d q c. unfold get, inb, mapi2.
+  destruct (Z.ltb_spec q 0); simpl.
+  { destruct (Z.leb_spec 0 q); [lia |]. reflexivity. }
+  destruct (Z.ltb_spec c 0); simpl.
+  { destruct (Z.leb_spec 0 c); [lia |]. rewrite andb_false_r. reflexivity. }
+  destruct (Z.leb_spec 0 q); [| lia]. destruct (Z.leb_spec 0 c); [| lia]. simpl.
+  destruct (Nat.ltb_spec (Z.to_nat q) (length d)); simpl.
+  - rewrite (nth_mapi_from _ _ _ d 0 (Z.to_nat q) [] []) by auto.
+    destruct (Nat.ltb_spec (Z.to_nat c) (length (nth (Z.to_nat q) d []))).
+    + rewrite (nth_mapi_from _ _ _ _ 0 (Z.to_nat c) dflt dflt) by auto. f_equal; lia.
+    + apply nth_mapi_from_out. auto.
+  - rewrite nth_mapi_from_out by auto. destruct (Z.to_nat c); reflexivity.
+Qed.
+
+(* an update that keeps the old value where [g] is false leaves those cells unchanged (in or out of range) *)
+Lemma get_mapi2_keep : forall (g : Z -> Z -> bool) (h : Z -> Z -> V -> V) d q c,
+  g q c = false ->
+  get dflt (mapi2 (fun q c v => if g q c then h q c v else v) d) q c = get dflt d q c.
+Proof.
+  intros. rewrite get_mapi2. rewrite H. destruct (inb d q c) eqn:E; auto.
+  symmetry. apply get_out. auto.
+Qed.
+
+Lemma inb_mapi2 : forall f d q c, inb (mapi2 f d) q c = inb d q c.
+Proof.
+  intros. unfold inb, mapi2. rewrite mapi_from_length.
+  destruct (Nat.ltb_spec (Z.to_nat q) (length d)).
+  - rewrite (nth_mapi_from _ _ _ d 0 (Z.to_nat q) [] []) by auto. rewrite mapi_from_length. reflexivity.
+  - rewrite nth_mapi_from_out by auto. rewrite (nth_overflow d) by auto. reflexivity.
+Qed.
+
+(* ---------- pruning ---------- *)
+
+Theorem prune_spec : forall zero uq fcp f d q c,
+  get dflt (prune zero uq fcp f d) q c =
+  if negb (f_start f =? f_sim_end f) && zmem q uq && (f_first fcp f + 1 <=? c) && inb d q c
+  then zero else get dflt d q c.
+Proof.
+  intros. unfold prune, prune_skipped.
+  destruct (f_start f =? f_sim_end f); simpl; auto.
+  rewrite get_mapi2. unfold in_slice, f_zero_slice, fr_zero_unanticipated_slice, f_first. simpl.
+  rewrite andb_true_r.
+  destruct (inb d q c) eqn:E.
+  - rewrite andb_true_r. reflexivity.
+  - rewrite andb_false_r. symmetry. apply get_out. auto.
+Qed.
+
+(* ---------- write-back of a frame ---------- *)
+
+Theorem write_back_spec : forall uq fcp f main fdata q c,
+  get dflt (write_back dflt uq fcp f main fdata) q c =
+  if written_back uq fcp f q c && inb main q c then get dflt fdata q c else get dflt main q c.
+Proof.
+  intros. unfold write_back. rewrite get_mapi2.
+  destruct (inb main q c) eqn:E.
+  - rewrite andb_true_r. reflexivity.
+  - rewrite andb_false_r. symmetry. apply get_out. auto.
+Qed.
+
+(* which cells a write-back may touch: regular rows on the columns first..last of the frame,
+   unanticipated-shock rows on the first column only *)
+Lemma written_back_columns : forall uq fcp f q c,
+  written_back uq fcp f q c = true ->
+  f_first fcp f <= c <= f_last fcp f \/ (zmem q uq = true /\ c = f_first fcp f).
+Proof.
+  intros uq fcp f q c. unfold written_back.
+  destruct (zmem q uq).
+  - rewrite Z.eqb_eq. auto.
+  - unfold in_slice, f_slice, fr_slice, f_first, f_last. simpl.
+    rewrite andb_true_iff, Z.leb_le, Z.ltb_lt. lia.
+Qed.
+
+(* cells outside the frame slice are unchanged by the write-back *)
+Theorem writeback_frame : forall uq fcp f main fdata q c,
+  f_first fcp f <= f_last fcp f ->
+  (c < f_first fcp f \/ f_last fcp f < c) ->
+  get dflt (write_back dflt uq fcp f main fdata) q c = get dflt main q c.
+Proof.
+  intros. rewrite write_back_spec.
+  destruct (written_back uq fcp f q c) eqn:E; auto.
+  apply written_back_columns in E. lia.
+Qed.
+
+(* unanticipated-shock rows keep their values after the first column of the frame *)
+Theorem writeback_unanticipated_rows : forall uq fcp f main fdata q c,
+  zmem q uq = true -> c <> f_first fcp f ->
+  get dflt (write_back dflt uq fcp f main fdata) q c = get dflt main q c.
+Proof.
+  intros. rewrite write_back_spec. unfold written_back. rewrite H.
+  destruct (Z.eqb_spec c (f_first fcp f)); [contradiction | reflexivity].
+Qed.
+
+(* ---------- what simulate_frame may change ---------- *)
+
+Theorem frame_after_untouched : forall pre oracle wrt term q c,
+  touched wrt term q c = false ->
+  get dflt (frame_after dflt pre oracle wrt term) q c = get dflt pre q c.
+Proof. intros. unfold frame_after. apply (get_mapi2_keep (touched wrt term)). auto. Qed.
+
+Theorem frame_after_touched : forall pre oracle wrt term q c,
+  touched wrt term q c = true -> inb pre q c = true ->
+  get dflt (frame_after dflt pre oracle wrt term) q c = get dflt oracle q c.
+Proof. intros. unfold frame_after. rewrite get_mapi2, H0, H. reflexivity. Qed.
+
+Lemma copy_exogenized_spec : forall d input exog q c,
+  get dflt (copy_exogenized dflt d input exog) q c =
+  if smem (q, c) exog && inb d q c then get dflt input q c else get dflt d q c.
+Proof.
+  intros. unfold copy_exogenized. rewrite get_mapi2.
+  destruct (inb d q c) eqn:E.
+  - rewrite andb_true_r. reflexivity.
+  - rewrite andb_false_r. symmetry. apply get_out. auto.
+Qed.
+
+(* an exogenized cell that the solver does not own carries its input value after the frame is simulated *)
+Theorem exogenized_untouched : forall zero S input main f oracle q c,
+  In (q, c) (frame_exog S f) ->
+  touched (frame_wrt S f) (frame_term S f) q c = false ->
+  inb main q c = true ->
+  get dflt (fst (step_frame dflt zero S input main f oracle)) q c = get dflt input q c.
+Proof.
+  intros. unfold step_frame. simpl.
+  rewrite frame_after_untouched by auto.
+  rewrite copy_exogenized_spec.
+  apply smem_In in H. rewrite H.
+  unfold prune. destruct (prune_skipped _ _ _); [rewrite H1; reflexivity |].
+  rewrite inb_mapi2, H1. reflexivity.
+Qed.
+
+(* with a plan, exogenized endogenous cells are never among the unknowns *)
+Lemma exogenized_not_wrt : forall p cols qids s,
+  In s (exogenized_spots p cols) -> ~ In s (endogenized_spots p cols) ->
+  ~ In s (wrt_spots (Some p) cols qids).
+Proof.
+  intros p cols qids s He Hn Hw. unfold wrt_spots in Hw. apply swap_spots_In in Hw. tauto.
+Qed.
+
+(* ---------- the frame loop: cells outside the base columns never change ---------- *)
+
+Theorem step_frame_outside : forall zero S input main f oracle q c,
+  f_first (s_fcp S) f <= f_last (s_fcp S) f ->
+  (c < f_first (s_fcp S) f \/ f_last (s_fcp S) f < c) ->
+  get dflt (snd (step_frame dflt zero S input main f oracle)) q c = get dflt main q c.
+Proof. intros. unfold step_frame. simpl. apply writeback_frame; auto. Qed.
+
+Theorem run_frames_outside : forall zero S input frames oracles main b0 b1 q c,
+  Forall (fun f => b0 <= f_first (s_fcp S) f /\ f_first (s_fcp S) f <= f_last (s_fcp S) f
+                   /\ f_last (s_fcp S) f <= b1) frames ->
+  (c < b0 \/ b1 < c) ->
+  get dflt (snd (run_frames dflt zero S input main frames oracles)) q c = get dflt main q c.
+Proof.
+  induction frames as [| f fs IH]; intros oracles main b0 b1 q c HF Hc; simpl; auto.
+  destruct oracles as [| o os]; simpl; auto.
+  inversion HF as [| ? ? Hf HF']; subst.
+  rewrite (IH os _ b0 b1) by auto.
+  apply step_frame_outside; lia.
+Qed.
+
+(* writing a guess into the data touches the unknown cells only *)
+Theorem update_cells_outside : forall spots vals d q c,
+  ~ In (q, c) spots -> get dflt (update_cells d spots vals) q c = get dflt d q c.
+Proof.
+  induction spots as [| s ss IH]; intros vals d q c Hn; simpl; auto.
+  destruct vals as [| v vs]; auto.
+  rewrite IH by (intros H; apply Hn; right; auto).
+  unfold set_cell.
+  apply (get_mapi2_keep (fun q c => spot_eqb (q, c) s) (fun _ _ _ => v)).
+  destruct (spot_eqb (q, c) s) eqn:E; auto.
+  apply spot_eqb_eq in E. subst. exfalso. apply Hn. left. reflexivity.
+Qed.
+
+End DataLemmas.
